@@ -23,8 +23,10 @@ condition than iterations); `range` needs none.
 
 What is NOT modelled: the text of error messages (an error is its class `Err` plus whether it is wrapped in
 `nonfatalError{…}`; the format string selects the class through `errClasses`, its arguments are evaluated — they may
-index — and dropped); `int` arithmetic is unbounded (no `int` of the decoder can approach 2^63: sums of at most
-2·65535 16-bit lengths and differences of reader counts); pointers are copy-in / copy-out (the decoder never aliases
+index — and dropped); integers are natural numbers: the unsigned types wrap around at their width, `int` is unbounded
+above (no `int` of the decoders can approach 2^63: sums of at most 2·65535 16-bit lengths, reader counts); a difference
+of two `int`s may be negative (`.neg`: NetFlow v9 computes what is left of a flowset so) and can then only be compared,
+converted to `int` and stored; pointers are copy-in / copy-out (the decoder never aliases
 the structs it passes by pointer); every `*reader.Reader` is the decoder's one reader.
 -/
 namespace Vflow.IpfixIR
@@ -38,6 +40,8 @@ inductive Ty where
   /-- `TemplateFieldSpecifier`, `[]TemplateFieldSpecifier` -/
   | fieldSpec | fieldSpecs
   | tplHeader | tplRecord | setHeader | msgHeader
+  /-- NetFlow v9: `TemplateHeader` (with the two option lengths), `PacketHeader`, `Message` -/
+  | tplHeader9 | pktHeader | message9
   /-- `InfoElementEntry`, `FieldType` -/
   | elem
   /-- `interface{}` -/
@@ -50,7 +54,7 @@ inductive Ty where
 deriving DecidableEq, Repr
 
 inductive BinOp where
-  | add | sub | band
+  | add | sub | band | quo
   | lt | le | gt | ge | eq | ne
   | land | lor
 deriving DecidableEq, Repr
@@ -79,6 +83,8 @@ inductive Expr where
   | interpret (b t : Expr)
   /-- `DecodedField{ID: id, Value: val, EnterpriseNo: ent}` -/
   | mkField (id val ent : Expr)
+  /-- NetFlow v9 `DecodedField{ID: id, Value: val}` (no enterprise number) -/
+  | mkField2 (id val : Expr)
   /-- `T{}` / `new(T)` / the zero value of `var x T` -/
   | zero (t : Ty)
   /-- `append(xs, x)` -/
@@ -212,10 +218,25 @@ deriving DecidableEq, Repr
 def MHdr.toHdr (h : MHdr) : Hdr := [h.ver, h.len, h.et, h.sq, h.dom]
 def MHdr.ofHdr (h : Hdr) : MHdr := ⟨h.getD 0 0, h.getD 1 0, h.getD 2 0, h.getD 3 0, h.getD 4 0⟩
 
+/-- NetFlow v9 `PacketHeader` -/
+structure PHdr where
+  ver : Nat := 0
+  cnt : Nat := 0
+  up : Nat := 0
+  secs : Nat := 0
+  sq : Nat := 0
+  src : Nat := 0
+deriving DecidableEq, Repr
+
+def PHdr.toHdr (h : PHdr) : Hdr := [h.ver, h.cnt, h.up, h.secs, h.sq, h.src]
+def PHdr.ofHdr (h : Hdr) : PHdr := ⟨h.getD 0 0, h.getD 1 0, h.getD 2 0, h.getD 3 0, h.getD 4 0, h.getD 5 0⟩
+
 inductive V where
   | unset
   | nil
   | int (n : Nat)
+  /-- a negative `int`: −k, k ≥ 1 (only a difference of two `int`s can be one) -/
+  | neg (k : Nat)
   | bool (b : Bool)
   | bytes (b : Bytes)
   | err (e : GErr)
@@ -236,6 +257,10 @@ inductive V where
   | dsets (l : List Record)
   /-- `Message`: AgentID (the exporter address it is the text of), Header, DataSets -/
   | msg (agent : Bytes) (h : MHdr) (sets : List Record)
+  /-- NetFlow v9: `TemplateHeader` (TemplateID, FieldCount, OptionLen, OptionScopeLen), `PacketHeader`, `Message` -/
+  | thdr9 (tid cnt olen oslen : Nat)
+  | phdr (h : PHdr)
+  | msg9 (agent : Bytes) (h : PHdr) (sets : List Record)
 deriving DecidableEq, Repr
 
 abbrev Env := List V
@@ -264,6 +289,9 @@ def zero : Ty → Option V
   | .dfields => some (.drec [])
   | .dsets => some (.dsets [])
   | .message => some (.msg [] {} [])
+  | .tplHeader9 => some (.thdr9 0 0 0 0)
+  | .pktHeader => some (.phdr {})
+  | .message9 => some (.msg9 [] {} [])
   | .other _ => none
 
 /-- integer types wrap around; `int` does not (see the header) -/
@@ -289,7 +317,18 @@ def fieldOf (v : V) (name : String) : Option V :=
     else if name = "FieldSpecifiers" then some (.specs t.fields)
     else if name = "ScopeFieldSpecifiers" then some (.specs t.scope) else none
   | .shdr id len =>
-    if name = "SetID" then some (.int id) else if name = "Length" then some (.int len) else none
+    if name = "SetID" then some (.int id) else if name = "FlowSetID" then some (.int id)
+    else if name = "Length" then some (.int len) else none
+  | .thdr9 tid cnt olen oslen =>
+    if name = "TemplateID" then some (.int tid) else if name = "FieldCount" then some (.int cnt)
+    else if name = "OptionLen" then some (.int olen) else if name = "OptionScopeLen" then some (.int oslen) else none
+  | .phdr h =>
+    if name = "Version" then some (.int h.ver) else if name = "Count" then some (.int h.cnt)
+    else if name = "SysUpTime" then some (.int h.up) else if name = "UNIXSecs" then some (.int h.secs)
+    else if name = "SeqNum" then some (.int h.sq) else if name = "SrcID" then some (.int h.src) else none
+  | .msg9 a h s =>
+    if name = "AgentID" then some (.bytes a) else if name = "Header" then some (.phdr h)
+    else if name = "DataSets" then some (.dsets s) else none
   | .mhdr h =>
     if name = "Version" then some (.int h.ver) else if name = "Length" then some (.int h.len)
     else if name = "ExportTime" then some (.int h.et) else if name = "SequenceNo" then some (.int h.sq)
@@ -317,7 +356,19 @@ def setField (v : V) (name : String) (x : V) : Option V :=
     if name = "FieldSpecifiers" then some (.tpl { t with fields := l })
     else if name = "ScopeFieldSpecifiers" then some (.tpl { t with scope := l }) else none
   | .shdr id len, .int n =>
-    if name = "SetID" then some (.shdr n len) else if name = "Length" then some (.shdr id n) else none
+    if name = "SetID" then some (.shdr n len) else if name = "FlowSetID" then some (.shdr n len)
+    else if name = "Length" then some (.shdr id n) else none
+  | .thdr9 tid cnt olen oslen, .int n =>
+    if name = "TemplateID" then some (.thdr9 n cnt olen oslen) else if name = "FieldCount" then some (.thdr9 tid n olen oslen)
+    else if name = "OptionLen" then some (.thdr9 tid cnt n oslen) else if name = "OptionScopeLen" then some (.thdr9 tid cnt olen n)
+    else none
+  | .phdr h, .int n =>
+    if name = "Version" then some (.phdr { h with ver := n }) else if name = "Count" then some (.phdr { h with cnt := n })
+    else if name = "SysUpTime" then some (.phdr { h with up := n }) else if name = "UNIXSecs" then some (.phdr { h with secs := n })
+    else if name = "SeqNum" then some (.phdr { h with sq := n }) else if name = "SrcID" then some (.phdr { h with src := n }) else none
+  | .msg9 _ h s, .bytes b => if name = "AgentID" then some (.msg9 b h s) else none
+  | .msg9 a _ s, .phdr h => if name = "Header" then some (.msg9 a h s) else none
+  | .msg9 a h _, .dsets s => if name = "DataSets" then some (.msg9 a h s) else none
   | .mhdr h, .int n =>
     if name = "Version" then some (.mhdr { h with ver := n }) else if name = "Length" then some (.mhdr { h with len := n })
     else if name = "ExportTime" then some (.mhdr { h with et := n }) else if name = "SequenceNo" then some (.mhdr { h with sq := n })
@@ -360,7 +411,13 @@ def errClasses : List (String × Err) :=
    ("%s unknown ipfix template id# %d", .unknownTpl),
    ("IPFIX element key (%d) not exist (scope)", .unknownElem),
    ("IPFIX element key (%d) not exist", .unknownElem),
-   ("%s zero-length data record (ipfix template id# %d)", .zeroRec)]
+   ("%s zero-length data record (ipfix template id# %d)", .zeroRec),
+   -- netflow/v9/decoder.go
+   ("invalid netflow version (%d)", .badVersion),
+   ("%s unknown netflow template id# %d", .unknownTpl),
+   ("Netflow element key (%d) not exist (scope)", .unknownElem),
+   ("Netflow element key (%d) not exist", .unknownElem),
+   ("%s zero-length data record (netflow template id# %d)", .zeroRec)]
 
 /-- package-level error values: `io.ErrUnexpectedEOF` is what `decodeSet` returns for a set length below 4 -/
 def errConsts : List (String × Err) := [("io.ErrUnexpectedEOF", .badSetLen)]
@@ -376,6 +433,13 @@ def veq : V → V → Option Bool
   | .err _, .nil => some false
   | .nil, .err _ => some false
   | _, _ => none
+
+/-- order comparisons with a negative operand (`x` negative, `y` not, or the other way round) -/
+def cmpNeg (op : BinOp) (negLeft : Bool) : Option V :=
+  match op with
+  | .lt | .le => some (.bool negLeft)
+  | .gt | .ge => some (.bool (!negLeft))
+  | _ => none
 
 def appendV : V → V → Option V
   | .specs l, .spec s => some (.specs (l ++ [s]))
@@ -399,20 +463,25 @@ def indexV : V → Nat → Option V
   | .errs l, i => (l[i]?).map .err
   | _, _ => none
 
-/-- `a - b` at type `t`: the unsigned types wrap around; an `int` that would become negative is no value (the
-theorems show it never happens) -/
+/-- `a - b` at an unsigned type `t`: wraps around -/
 def subAt : Ty → Nat → Nat → Option Nat
   | .u8, a, b => some ((a + 256 - b % 256) % 256)
   | .u16, a, b => some ((a + 65536 - b % 65536) % 65536)
   | .u32, a, b => some ((a + 4294967296 - b % 4294967296) % 4294967296)
-  | .int, a, b => if b ≤ a then some (a - b) else none
   | _, _, _ => none
+
+/-- `a - b` at type `t`: the unsigned types wrap around, an `int` difference may be negative -/
+def subV (t : Ty) (a b : Nat) : Option V :=
+  match t with
+  | .int => some (if b ≤ a then .int (a - b) else .neg (b - a))
+  | t => (subAt t a b).map .int
 
 def binInt (op : BinOp) (t : Ty) (a b : Nat) : Option V :=
   match op with
   | .add => (wrap t (a + b)).map .int
-  | .sub => (subAt t a b).map .int
+  | .sub => subV t a b
   | .band => some (.int (a &&& b))
+  | .quo => if b = 0 then none else some (.int (a / b))
   | .lt => some (.bool (decide (a < b)))
   | .le => some (.bool (decide (a ≤ b)))
   | .gt => some (.bool (decide (a > b)))
@@ -435,6 +504,7 @@ def eval (addr : Bytes) (st : St) (env : Env) : Expr → Option V
   | .conv t e =>
     match eval addr st env e with
     | some (.int n) => (wrap t n).map .int
+    | some (.neg k) => if t = .int then some (.neg k) else none
     | _ => none
   | .not e =>
     match eval addr st env e with
@@ -467,6 +537,8 @@ def eval (addr : Bytes) (st : St) (env : Env) : Expr → Option V
     | op =>
       match eval addr st env a, eval addr st env b with
       | some (.int x), some (.int y) => binInt op t x y
+      | some (.neg _), some (.int _) => cmpNeg op true
+      | some (.int _), some (.neg _) => cmpNeg op false
       | _, _ => none
   | .rdLen => some (.int st.r.rem.length)
   | .rdCount => some (.int st.r.cnt)
@@ -480,6 +552,10 @@ def eval (addr : Bytes) (st : St) (env : Env) : Expr → Option V
     match eval addr st env id, eval addr st env val, eval addr st env ent with
     | some (.int i), some (.any v), some (.int e) => some (.dfield ⟨i, e, v⟩)
     | _, _, _ => none
+  | .mkField2 id val =>
+    match eval addr st env id, eval addr st env val with
+    | some (.int i), some (.any v) => some (.dfield ⟨i, 0, v⟩)
+    | _, _ => none
   | .zero t => zero t
   | .append xs x =>
     match eval addr st env xs, eval addr st env x with
